@@ -993,7 +993,7 @@ func (fr *Frame) repeatedClosure(cx *callCtx, v ssa.Value, args func() []Term, k
 		if strings.HasPrefix(c, "$") {
 			continue
 		}
-		if cx.st.heap[c] != t {
+		if e.get(cx.st, c) != t {
 			mods = append(mods, c)
 		}
 	}
